@@ -267,8 +267,27 @@ def run(ctx):
                 und = [-1]
             cases.append({"id": "x%d_%d" % (j, n), "kind": "hex", "data": list(d), "n": n, "lines": [[ord(c) for c in l] for l in text.split("\n")], "undump": und})
             nt += 1
+    # dumps long enough for the wide offset column (65536 bytes and more), and the last ones below it: handed over by their ends
+    for j, (L, n) in enumerate([(65535, 16), (65536, 16), (65536, 32), (65537, 7), (70001, 16)] if quick else [(65535, 16), (65536, 16), (65536, 32), (65537, 7), (70001, 16), (65536, 1), (131072, 32), (1048577, 32)]):
+        d = bytes(rng.randrange(256) for _ in range(L))
+        text = hexdump(d, n)
+        tl = text.split("\n")
+        try:
+            und = bytes(hexundump(text, n))
+            undlen = len(und)
+        except Exception:
+            und, undlen = b"", -1
+        nl = (L + n - 1) // n
+        win = []
+        for li in sorted({0, 1, nl - 2, nl - 1}):
+            if 0 <= li < nl and li + 1 < len(tl):
+                win.append({"off": li * n, "slice": list(d[li * n:(li + 1) * n]), "line": [ord(c) for c in tl[li + 1]]})
+        cases.append({"id": "xl%d" % j, "kind": "hexlong", "len": L, "n": n, "nlines": len(tl), "win": win, "undlen": undlen,
+                      "undhead": list(und[:2 * n]), "undtail": list(und[-2 * n:]), "datahead": list(d[:2 * n]), "datatail": list(d[-2 * n:])})
+        nt += 1
     ctx.sample({"history": [s["op"] for s in cases[0]["steps"]]})
-    ctx.sample({"hex": {"data": cases[-1]["data"][:8], "n": cases[-1]["n"]}})
+    lasthex = next(c for c in reversed(cases) if c["kind"] == "hex")
+    ctx.sample({"hex": {"data": lasthex["data"][:8], "n": lasthex["n"]}})
     paths = []
     os.makedirs(ctx.scratch, exist_ok=True)
     size = 300
